@@ -125,6 +125,24 @@ class TrigRewriter:
         if u == 1 and a.op == "f" and a.args[0] == "asin":
             x = a.args[1]
             return tm.sqrt_(tm.add(tm.ONE, tm.neg(tm.mul(x, x)))), x
+        half = Fraction(1, 2)
+        if u == half and a.op == "f" and a.args[0] == "acos":
+            # beta = acos(x) in [0, pi]  =>  cos(beta/2) = sqrt((1+x)/2) >= 0, sin(beta/2) = sqrt((1-x)/2) >= 0
+            x = a.args[1]
+            h = tm.const(half)
+            return tm.sqrt_(tm.mul(h, tm.add(tm.ONE, x))), tm.sqrt_(tm.mul(h, tm.add(tm.ONE, tm.neg(x))))
+        if u == half and a.op == "f" and a.args[0] == "atan2":
+            # theta = atan2(y,x) in (-pi, pi]  =>  cos(theta/2) = sqrt((1 + x/r)/2) >= 0 ; sin(theta/2) = (y/r) / (2 cos(theta/2))
+            # valid for theta != pi, i.e. 1 + x/r != 0 (side condition), and r != 0
+            y, x = a.args[1], a.args[2]
+            r2 = tm.add(tm.mul(x, x), tm.mul(y, y))
+            r = tm.sqrt_(r2)
+            c2 = tm.mul(tm.const(half), tm.add(tm.ONE, tm.div(x, r)))
+            ch = tm.sqrt_(c2)
+            for sc in (r2, c2):
+                if not any(sc is c for c in self.side_conditions):
+                    self.side_conditions.append(sc)
+            return ch, tm.div(tm.div(y, r), tm.mul(tm.const(2), ch))
         ua = tm.mul(tm.const(u), a)
         return tm.fn("cosu", ua), tm.fn("sinu", ua)
 
